@@ -235,11 +235,14 @@ def wrap_verbose(func):
         elif ('verbose' in kwargs):
             logger.warning("Logger level '{0}' not recognised - level is unchanged".format(kwargs['verbose']))
 
-        # Call function itself
-        func_output = func(*args, **kwargs)
-
-        if ('verbose' in kwargs) and (kwargs['verbose'] is not None):
-            set_level(level=logging._levelToName[current_level])
+        # Call function itself, making sure that the previous level is put back
+        # whether it returns or raises. There is no console level to restore if
+        # the logger has not been set up.
+        try:
+            func_output = func(*args, **kwargs)
+        finally:
+            if ('verbose' in kwargs) and (kwargs['verbose'] is not None) and (current_level is not None):
+                set_level(level=logging._levelToName[current_level])
 
         return func_output
     return inner_verbose
